@@ -180,10 +180,17 @@ def concretise(scn, seed=0):
       members = KIND_MEMBERS[o["kind"]]
       k = (seed + si * 7 + oi) % len(members)
       if o["kind"] == "FC":
+        md = scn.get("mode", [[{}] * len(sub["ops"])] * len(scn["subs"]))[si][oi]
+        if str(md.get("w", "-")).startswith("w4") or len(o["ins"]) < 3 or o["ins"][2] == -1:
+          # 4-bit weights are only accepted for FULLY_CONNECTED by the default policy; the converter always gives
+          # convolutions a bias (normal form), only FULLY_CONNECTED may come without one
+          k = 0
         wt = o["ins"][1]
         g = sub.get("tbuf", [0] * len(sub["trole"]))[wt]
         key = ("g", g) if g else ("t", wt)
-        if key in wgroup:
+        if key in wgroup and wgroup[key] != k:
+          if k == 0:
+            raise Unrealisable("shared weight forced to FULLY_CONNECTED and used by a convolution")
           k = wgroup[key]
         wgroup[key] = k
       cs.append(members[k])
